@@ -45,6 +45,10 @@ CHECKS = {
  "C07": ("exploration", "property-based testing over generated non-canonical value forms; the library's validate() splits accepted/rejected, oracle = harness canonical-form predicate + no-byte-written check over three writers",
          "Accepted forms must be written by the datum, container and single-object writers and read back (library and reference decoder) as a canonical form of the value; rejected forms must leave sink, file and message untouched.",
          "Canonical forms come from the harness's own denotes() predicate; bare-value-in-union and near-miss forms are applied alone, other forms in combinations.", "DESIGN.md §4 C07"),
+
+ "C15": ("exploration", "property-based round-trip and differential testing of every codec/level against reference codecs (own inflate/snappy/CRC-32, Python zlib/bz2/lzma); enumeration of all levels and of the output limit boundary",
+         "Every codec x every valid level on fixed payloads; generated payloads x random codec/level: round trip, reference decompressor reads the library's output, library reads reference streams, snappy CRC trailer; hostile input never exceeds the limit; L-1/L accepted, L+1/8L refused.",
+         "Python's zlib/bz2/lzma and the harness's own inflate/snappy are the references; zstandard has none here; allocation limit fixed at 1 MiB in the check's process.", "DESIGN.md §4 C15"),
 }
 NOT_YET = {}
 
